@@ -46,6 +46,53 @@ ALL_SCHEDS = REAL_GROUPS + S2_GROUPS + ("forced", "adversarial", "forced_unroll"
 seams.install_dump_dag_stub()
 
 
+# ---------------------------------------------------------------------------
+# S4 made unnecessary: canonical (address-free) presentation order for the REAL pass groups.
+# Update-block functions hash by address, so the iteration order of top._dag.final_upblks /
+# all_constraints / all_update_ff - and with it the tie-breaks of the real scheduling passes -
+# would differ between interpreter runs (ASLR) and a replay in a fresh interpreter might pick
+# another legal schedule.  After the real GenDAGPass has run, its result sets are re-wrapped in
+# OrderedSets sorted by (host component, block name); HeuristicTopoPass breaks ties by id(), which
+# is bound in that module to the canonical index of the block.  The seeded `*_s2` variants shuffle
+# this canonical order with the run's seed.
+# ---------------------------------------------------------------------------
+
+_canon_index = {}
+
+
+def _install_canonical_order():
+  import builtins
+  import pymtl3.passes.mamba.HeuristicTopoPass as H
+  if getattr(GenDAGPass, "_dsim_canonical", False):
+    return
+  orig = GenDAGPass.__call__
+
+  def __call__(self, top):
+    orig(self, top)
+    key = seams.blk_sort_key(top)
+    blks = sorted(top._dag.final_upblks, key=key)
+    top._dag.final_upblks = seams.OrderedSet(blks)
+    top._dag.all_constraints = seams.OrderedSet(
+      sorted(top._dag.all_constraints, key=lambda e: (key(e[0]), key(e[1]))))
+    top._dsl.all_update_ff = seams.OrderedSet(sorted(top._dsl.all_update_ff, key=key))
+    _canon_index.clear()
+    for i, b in enumerate(blks):
+      _canon_index[b] = i + 1
+
+  GenDAGPass.__call__ = __call__
+  GenDAGPass._dsim_canonical = True
+
+  def canon_id(x):
+    try:
+      return _canon_index.get(x) or builtins.id(x)
+    except TypeError:
+      return builtins.id(x)
+  sys.modules["pymtl3.passes.mamba.HeuristicTopoPass"].__dict__["id"] = canon_id
+
+
+_install_canonical_order()
+
+
 def graph(top):
   """(V, E) of the intra-cycle graph, V sorted by an address-free key."""
   key = seams.blk_sort_key(top)
